@@ -1,19 +1,260 @@
-"""C03 — emitted documents conform to the published wire format.  Same cases, model and correspondence
-as C02 (harness/props/c02.py); the monitor is mon3 of coq/run/C02Run.v (schema verdict, index sanity,
-nodes listed in index order with the root first, port addressing by the reader's contract)."""
-from props.c02 import RT
+"""C03 — emitted documents conform to the published wire format.  Same cases, model and typed correspondence
+as C02 (harness/props/c02.py, coq/run/C02Run.v: mon3 = python-jsonschema verdict, index sanity, nodes listed in
+index order with the root first, port addressing by the reader's contract).
+
+Second pass (coq/run/C03SchemaRun.v, harness/c03_coqschema.py): every document a case emits — exactly the texts
+the python-jsonschema server is asked about: HUGR documents, Package documents, Extension documents, lowering
+HUGRs inside extensions — is also written out as a JSON tree and validated IN COQ (vm_compute) by the validator of
+coq/model/Schema.v against the regenerated `published_hugr_strict` constant; both validators must accept (monitor;
+a failing case is re-evaluated part by part to name what failed and to report a disagreement of the two validators as
+model drift).  Per HUGR of a case the JSON value the implementation wrote is compared in Coq with
+the rendering (coq/model/DocJson.v `doc_json`) of the document the Gallina model of Hugr._to_serial computes from
+the public-API dump; operation objects and metadata dicts come from that dump, not from the document."""
+import json
+import os
+
+import fw
+import progs
+from fw import gN, glist, gbool
+from props import c02
+from props.c02 import RT, Lit, opcode
+from translators import schema as schema_tr
+import c03_coqschema as cj
+
+# documents above this size (bytes of JSON text) are judged by python-jsonschema only (Coq elaboration cost)
+MAX_COQ_DOC = 200_000
+
+
+STATIC_SOURCES = ("Const", "FuncDefn", "FuncDecl")
+
+
+def static_clauses(case, o):
+    """(static_edges_ok applies, static_wired_ok applies) for one observed HUGR (coq/spec/StaticWiringS.v).
+    The clauses speak about links the builder API made.  A raw add_link mutation whose source is (or may be) a
+    static output can attach it to any port; a delete_node / delete_link mutation can unwire a static input.
+    Neither makes the document wrong, so the clause is switched off for that HUGR."""
+    muts = o.get("muts") or []
+    # an insert_hugr mutation carries the raw history of the inserted HUGR
+    inner = [x for m in muts if m[0] == "insert" for x in m[2]]
+    deleted = any(m[0] in ("delete_node", "delete_link") for m in muts + inner)
+    kind = {n["idx"]: n["kind"] for n in o.get("a", {}).get("nodes", [])}
+    raw_static = any(m[0] == "add_link" and m[2] == 0 and (deleted or kind.get(m[1]) in STATIC_SOURCES + (None,))
+                     for m in muts) or any(m[0] == "add_link" and m[2] == 0 for m in inner)
+    return (not raw_static, not raw_static and not deleted)
+
+
+def rowpoly_program(row):
+    """a module with the row-polymorphic function  forall (r : [Type]). (*r) -> (*r)  (body: ONE input, the row
+    variable) declared and called from main at r := row; the Call node has len(row) value inputs, so its static
+    function port is len(row): fewer than the polymorphic body's input count for row = [], more for len(row) >= 2"""
+    n = len(row)
+    ins = list(range(1, n + 1))
+    outs = list(range(n + 1, 2 * n + 1))
+    return {"root": "module", "consts": [], "funcs": [
+        {"name": "rowpoly0", "params": [["list", ["type", "C"]]], "ins": [["rowvar"]], "outs": [["rowvar"]],
+         "poly": "row", "decl": True, "rowvar": True},
+        {"name": "main", "ins": list(row), "outs": list(row),
+         "body": {"ins": ins, "stmts": [
+             {"k": "call", "func": "rowpoly0", "args": ins, "inst": ["fn", list(row), list(row)],
+              "targs": [["seq", [["type", t] for t in row]]], "id": 1, "outs": outs}],
+             "outs": outs, "out_tys": list(row), "defs": []}}]}
+
+
+# the raw history of a small HUGR to insert (Bool -> Bool identity: Input, Output, one link)
+INSERTED = (["add_node", ["input", ["B"]], 0, None, None], ["add_node", ["output", ["B"]], 0, None, None],
+            ["add_link", 1, 0, 2, 0])
 
 
 class C03(RT):
     id = "C03"
     props_file = "props/C03.v"
-    run_file = "run/C03Run.v"
-    run_module = "run.C03Run"
+    run_file = "run/C03SchemaRun.v"
+    run_module = "run.C03SchemaRun"
+    case_type = "jcase"
+    shard = 8
     which = 3
     rule = ("documents of HUGRs built by generated builder programs followed by a public-API mutation history, of "
             "packages of such modules (with an extension whose operation carries a lowering HUGR) and of extensions; "
             "non-trivial = a HUGR with an order link or a hole in its node table and at least 4 nodes, or a "
             "package / extension document")
+    trusted = list(RT.trusted) + [
+        "harness/c03_coqschema.py: printer of the emitted JSON text (parsed with Python's json, duplicate members "
+        "refused) as hash-consed Gallina tables (strings and shared sub-values by index), rebuilt into `json` trees by "
+        "expand_all of coq/run/C03SchemaRun.v; the tables operation code -> members / metadata code -> members of the "
+        "tie are taken from the public-API dump (NodeData._to_serial per node), not from the document",
+        "harness/translators/schema.py (C17): specification/schema/hugr_schema_strict_live.json -> gen/Schemas.v "
+        "`published_hugr_strict`, regenerated on every run, fails closed on keywords outside the formalised subset",
+        "fuel 600 of the Coq validator is enough for every sampled document: checked per document by the agreement "
+        "with python-jsonschema (exhausted fuel rejects)",
+    ]
+    assumptions = list(RT.assumptions) + [
+        "theorems C03_model_document_schema_valid / C03_emitted_document_schema_valid / C03_*_package_schema_valid: every "
+        "operation object, written with parent 0, is accepted by the OpType definition of the published strict schema "
+        "(hypothesis ops_valid0, visible in the statements; what C05/C17 cover), and extension documents by its Extension "
+        "definition; the instances are evaluated on every sampled document by the Coq monitor (whole documents are validated)",
+        "static-port clauses (coq/spec/StaticWiringS.v) are promises about links made by the builder API: switched off per "
+        "HUGR after a raw add_link from a static output / a delete mutation (counted in coq_schema.static_*_clause_applies)",
+        "JSON Schema draft 2020-12 semantics for the keyword subset occurring in the published files (C17's validator)",
+    ]
+
+    def regenerate(self, ctx):
+        # the published schema files as Coq constants (shared with C17; fail-closed translator)
+        path, _ = schema_tr.regenerate(fw.REPO, fw.COQ, ctx.work)
+        return [os.path.relpath(path, fw.VERIF)]
+
+    # -- cases
+    def corpus(self, ctx):
+        P = lambda row, muts=(): {"kind": "hugr", "program": rowpoly_program(row), "muts": [list(m) for m in muts]}
+        return list(super().corpus(ctx)) + [
+            # seeded C03-c / D13: Call._function_port_offset must be the INSTANTIATION's input count: a row-polymorphic
+            # call whose instantiation has fewer (0) and more (2, 3) value inputs than the polymorphic body (1)
+            P([]), P(["B", "I"]), P(["B", "B", "I"]), P(["I"]),
+            # the same with an order edge into the call (order port = value inputs + the static port)
+            P(["B", "I"], [["add_order", 3, 5]]),
+            # seeded C03-e: insert_hugr with the parent omitted inserts below the root (not as a second root that the
+            # document lists as its own parent); once, and twice in a row after other nodes
+            {"kind": "hist", "root": ["module"], "muts": [["insert", ["dfg", ["B"], ["B"]], list(INSERTED), None]]},
+            # ... next to the same insertion with parent = root and parent = a container added before
+            {"kind": "hist", "root": ["module"], "muts": [
+                ["insert", ["dfg", ["B"], ["B"]], list(INSERTED), 0], ["add_node", ["dfg", [], []], 0, None, None],
+                ["insert", ["dfg", ["B"], ["B"]], list(INSERTED), 4], ["insert", ["dfg", ["B"], ["B"]], list(INSERTED), None]]},
+            {"kind": "hist", "root": ["dfg", ["B"], ["B"]], "muts": [
+                ["add_node", ["input", ["B"]], 0, None, None], ["add_node", ["output", ["B"]], 0, None, None],
+                ["insert", ["dfg", ["B"], ["B"]], list(INSERTED), None], ["insert", ["dfg", [], []], [], None],
+                ["add_link", 1, 0, 3, 0], ["add_link", 3, 0, 2, 0]]},
+        ]
+
+    def program(self, case):
+        if "program" in case:
+            return progs.run(case["program"]).hugr
+        return super().program(case)
+
+    # -- observation: the C02 observation plus every text handed to the schema server
+    def observe(self, case, ctx):
+        srv = c02.schema_server(ctx)
+        rec = []
+        plain_check = type(srv).check
+
+        def recording(defname, text, _srv=srv):
+            ans = plain_check(_srv, defname, text)
+            rec.append((defname, text, ans))
+            return ans
+        srv.check = recording
+        try:
+            o = super().observe(case, ctx)
+        finally:
+            del srv.check
+        o["schema_docs"] = rec
+        return o
+
+    # -- literal
+    @staticmethod
+    def _not_nat(obs):
+        """a document with a negative node index, parent or offset cannot be written as the typed (nat) document of
+        coq/run/C02Run.v; it is a wire-format violation by itself"""
+        for o in [obs] + list(obs.get("mods", [])):
+            for key in ("doc", "doc2"):
+                d = o.get(key)
+                if not d:
+                    continue
+                if any(isinstance(p, int) and p < 0 for _, p in d["nodes"]):
+                    return True
+                if any(isinstance(x, int) and x < 0 for e in d["edges"] for port in e for x in port):
+                    return True
+        return False
+
+    def literal(self, case, obs, ctx, count=True):
+        if self._not_nat(obs):
+            # keep the JSON side (both schema validators and json_index_sane still judge the text); the typed part
+            # is replaced by a case whose monitor fails
+            ctx.stats["documents_with_negative_indices"] = ctx.stats.get("documents_with_negative_indices", 0) + 1
+            base = "(CExt false false)"
+            obs = {k: v for k, v in obs.items() if k not in ("a", "mods")}
+        else:
+            base = super().literal(case, obs, ctx)
+        st = ctx.stats.setdefault("coq_schema", {"documents": 0, "bytes": 0, "over_size_cap_python_only": 0,
+                                                 "unprintable_python_only": 0, "ties": 0, "package_ties": 0,
+                                                 "literal_bytes": 0, "validator_disagreements_among_failing_cases": 0,
+                                                 "failing_cases_diagnosed": 0})
+        if not count:
+            st = dict(st)
+        L = Lit(ctx)
+        dag = cj.Dag()
+        roots = []          # (kind, payload, dag id)
+        try:
+            docs = []
+            parsed = {}
+            for defname, text, ans in obs.get("schema_docs", []):
+                if len(text) > MAX_COQ_DOC:
+                    st["over_size_cap_python_only"] += 1
+                    continue
+                parsed[text] = cj.parse(text)
+                docs.append((defname, dag.add(parsed[text]), ans == "OK"))
+                st["documents"] += 1
+                st["bytes"] += len(text)
+            rts = []
+            if "skip" not in obs and case["kind"] in ("hugr", "hist") and "a" in obs:
+                rts = [obs]
+            elif case["kind"] == "pkg" and "mods" in obs:
+                rts = obs["mods"]
+            ops, mds = {}, {}
+            for o in rts:
+                for n in o["a"]["nodes"]:
+                    code = opcode(n["op"])
+                    ops.setdefault(L.ops(code), dag.members(json.loads(code)))
+                    if n["md"]:
+                        mds.setdefault(L.md(json.dumps(n["md"], sort_keys=True)), dag.members(n["md"]))
+            ties, pkg = [], None
+            flags = [static_clauses(case, o) for o in rts]
+            if case["kind"] in ("hugr", "hist") and rts:
+                j = next((t for d, t, _ in obs["schema_docs"] if d == "SerialHugr"), None)
+                if j is not None and j in parsed and "doc" in obs:
+                    ties.append((parsed[j].get("encoder"), dag.add(parsed[j])))
+                    st["ties"] += 1
+                else:
+                    ties.append((None, None))
+            elif case["kind"] == "pkg" and rts:
+                j = next((t for d, t, _ in obs["schema_docs"] if d == "Package"), None)
+                pd = parsed.get(j)
+                if pd is not None and isinstance(pd.get("modules"), list) and len(pd["modules"]) == len(rts) \
+                        and all("doc" in o for o in rts):
+                    for m in pd["modules"]:
+                        ties.append((m.get("encoder") if isinstance(m, dict) else None, dag.add(m)))
+                        st["ties"] += 1
+                    pkg = ([dag.add(e) for e in pd.get("extensions", [])], dag.add(pd))
+                    st["package_ties"] += 1
+                else:
+                    ties = [(None, None)] * len(rts)
+            root_ids = [i for _, i, _ in docs] + list(ops.values()) + list(mds.values()) + \
+                       [i for _, i in ties if i is not None] + (pkg[0] + [pkg[1]] if pkg else [])
+            gstrs, gdefs, at = dag.render(root_ids)
+        except cj.Unprintable:
+            st["unprintable_python_only"] += 1
+            return "(J3 %s [] [] [] [] [] %s None)" % (base, glist("(Ti None None %s %s)" % (gbool(a), gbool(b))
+                                                                    for a, b in map(lambda o: static_clauses(case, o), self._rts(case, obs))))
+        gdocs = glist("(Sd %s %d %s)" % (cj.gstring(d), at[i], gbool(ok)) for d, i, ok in docs)
+        gops = glist("(Pr %d %d)" % (c, at[i]) for c, i in ops.items())
+        gmds = glist("(Pr %d %d)" % (c, at[i]) for c, i in mds.items())
+        gties = glist("(Ti %s %s %s %s)" % (cj.gopt_string(e) if isinstance(e, str) else "None",
+                                            "None" if i is None else "(Some %d%%N)" % at[i], gbool(fe), gbool(fw_))
+                      for (e, i), (fe, fw_) in zip(ties, flags))
+        for fe, fw_ in flags:
+            st["static_edge_clause_applies"] = st.get("static_edge_clause_applies", 0) + int(fe)
+            st["static_wired_clause_applies"] = st.get("static_wired_clause_applies", 0) + int(fw_)
+        gpkg = "None" if pkg is None else "(Some (%s, %d%%N))" % (glist("%d%%N" % at[i] for i in pkg[0]), at[pkg[1]])
+        lit = "(J3 %s\n %s\n %s\n %s\n %s\n %s\n %s\n %s)" % (base, gstrs, gdefs, gops, gmds, gdocs, gties, gpkg)
+        st["literal_bytes"] += len(lit)
+        return lit
+
+    @staticmethod
+    def _rts(case, obs):
+        if "skip" in obs:
+            return []
+        if case["kind"] in ("hugr", "hist"):
+            return [obs] if "a" in obs else []
+        if case["kind"] == "pkg":
+            return obs.get("mods", [])
+        return []
 
     def nontrivial(self, case, obs):
         a = obs.get("a")
@@ -21,6 +262,80 @@ class C03(RT):
             return case["kind"] not in ("hugr", "hist") and "skip" not in obs
         idxs = [n["idx"] for n in a["nodes"]]
         return len(idxs) >= 4 and (idxs != list(range(len(idxs))) or any(l[1] == -1 for l in a["links"]))
+
+    def describe(self, case, obs):
+        d = super().describe(case, obs)
+        bad = [(n, t) for n, t, ans in obs.get("schema_docs", []) if ans != "OK"]
+        if bad:
+            d["observed"]["rejected_document"] = {"definition": bad[0][0], "text": bad[0][1][:20000]}
+        return d
+
+    DIAG_MAX = 4
+
+    def diagnose(self, case, obs, ctx):
+        """which part of `mon` fails on this case: {"mon_typed": ok?, "mon_py": ok?, "mon_coq": ok?} or None.
+        One small coqc run; at most DIAG_MAX per check run."""
+        n = ctx.__dict__.get("c03_diag_n", 0)
+        if n >= self.DIAG_MAX:
+            return None
+        ctx.__dict__["c03_diag_n"] = n + 1
+        try:
+            res = fw.eval_cases(ctx.work, self.run_module, [self.literal(case, obs, ctx, count=False)], shard=1,
+                                checks=("mon_typed", "mon_py", "mon_coq", "mon_jidx", "mon_static"), tag="diag%d" % n,
+                                case_type=self.case_type)
+        except fw.CoqEvalError:
+            return None
+        ctx.stats["coq_schema"]["failing_cases_diagnosed"] += 1
+        return {k: not v for k, v in res.items()}
+
+    def signature(self, case, obs, ctx):
+        sig = super().signature(case, obs, ctx)
+        py_rejects = any(ans != "OK" for _, _, ans in obs.get("schema_docs", []))
+        generic = sig == "wire-format:index-or-port-addressing" or sig.endswith(":document")
+        if not (py_rejects or generic):
+            return sig
+        d = self.diagnose(case, obs, ctx)
+        if d is None:
+            return sig
+        if d["mon_py"] != d["mon_coq"]:
+            # the two validators disagree on a document of this case: drift of the Coq validator (or of the
+            # translation of the schema file / the document) from python-jsonschema
+            ctx.stats["coq_schema"]["validator_disagreements_among_failing_cases"] += 1
+            ctx.notes.append("MODEL DRIFT: python-jsonschema %s and the Coq validator %s a document of case %s"
+                             % ("accepts" if d["mon_py"] else "rejects", "accepts" if d["mon_coq"] else "rejects",
+                                json.dumps(case)[:300]))
+        if generic and not d["mon_coq"] and d["mon_typed"]:
+            return "schema:coq-validator-rejects:python-jsonschema-accepts"
+        if generic and not d["mon_static"] and d["mon_typed"]:
+            return "static-port:not-immediately-after-the-value-inputs"
+        if generic and not d["mon_jidx"] and d["mon_typed"]:
+            return "json-text:not-index-sane"
+        return sig
+
+    def distribution(self, cases, observations):
+        d = super().distribution(cases, observations)
+        # row-polymorphic calls: value inputs of the instantiation vs inputs of the polymorphic body (seeded C03-c / D13)
+        rp = {"fewer": 0, "equal": 0, "more": 0}
+        statics = 0
+        for o in observations:
+            for a in ([o["a"]] if "a" in o else [m["a"] for m in o.get("mods", []) if "a" in m]):
+                for n in a["nodes"]:
+                    op = n["op"]
+                    if op.get("op") in ("Call", "LoadFunction", "LoadConstant"):
+                        statics += 1
+                    if op.get("op") == "Call" and any(p.get("tp") == "List" for p in op["func_sig"]["params"]):
+                        x, y = len(op["instantiation"]["input"]), len(op["func_sig"]["body"]["input"])
+                        rp["fewer" if x < y else "more" if x > y else "equal"] += 1
+        d["row_polymorphic_calls_instantiation_vs_body_inputs"] = rp
+        d["nodes_with_a_static_input"] = statics
+        sizes = sorted(len(t) for o in observations for _, t, _ in o.get("schema_docs", []))
+        d["schema_documents"] = {"count": len(sizes), "bytes": sum(sizes),
+                                 "median_bytes": sizes[len(sizes) // 2] if sizes else 0,
+                                 "max_bytes": sizes[-1] if sizes else 0,
+                                 "coq_size_cap_bytes": MAX_COQ_DOC,
+                                 "by_definition": {k: sum(1 for o in observations for n, _, _ in o.get("schema_docs", []) if n == k)
+                                                   for k in ("SerialHugr", "Package", "Extension")}}
+        return d
 
 
 PROP = C03()
